@@ -42,7 +42,16 @@ def m_F12(sc, msg):
     if sc.get('_backend') != 'pyx':
         return False
     on_end = [t for t in sc['trains'] if len(t[0]) == 1 and t[0][0] == t[2]]
-    raw_on_end = [t for t in sc.get('raw', []) if len(set(t[0])) == 1 and list(t[0])[0] == t[2]]
+    raw_on_end = []
+    if sc.get('raw'):
+        # what the measures see is the RECONCILED form of the raw list: common edges, spikes inside the
+        # 1e-6 tolerance band, duplicates removed
+        eps = Fr(1, 10 ** 6)
+        tS = min(t[1] for t in sc['raw']); tE = max(t[2] for t in sc['raw'])
+        for t in sc['raw']:
+            kept = sorted(set(x for x in t[0] if tS - eps < x < tE + eps))
+            if len(kept) == 1 and kept[0] == tE:
+                raw_on_end.append(t)
     # a train is also compared with its own copy (identity clauses), so one such train suffices
     return len(on_end) + len(raw_on_end) >= 1 and ('nan' in msg.lower() or 'differs' in msg or 'non-finite' in msg or 'equal copy' in msg or 'outside' in msg or 'symmetric' in msg)
 
